@@ -136,12 +136,12 @@ REINFORCE = _cfg(prologue="call", ending="stop_start", empty_restart=True, retur
 A2C = _cfg(bracket="tick", vector=True, wrapper="next_step", start_first=False, prologue="reset", ending="ret_tick", return_src="wrapper", return_pos="any",
            stats={"return": "calls_before", "policy_loss": "calls", "value_loss": "calls"}, epochs={"policy": NONE, "value_function": NONE},
            units=[["policy", "policy_loss", "", 1]], learn_pos="after_collect")
-# ppo.py:331-335 reset, wrap with RecordEpisodeStatistics (SAME_STEP asserted), start; 95-112 per finished sub-environment:
-# global_step += l, return at global_step, start; 373-374 loss at step=iteration.
-# 95 `if logger is not None and "episode" in info:` ALSO gates `obs = obs.at[env_idx].set(o)` (104): only a run WITH a logger
-# evaluates next_value on the final observation of a finished episode; with logger=None it is evaluated on the first
-# observation of the next episode -> the kept next_value, the updates and all later actions differ (twin="env_only")
-PPO = _cfg(twin="env_only", bracket="tick", vector=True, wrapper="same_step", prologue="reset_start", ending="ret_tick", return_src="wrapper", return_pos="any",
+# ppo.py:337-341 reset, wrap with RecordEpisodeStatistics (SAME_STEP asserted), start; 101-118 per finished sub-environment:
+# global_step += l, return at global_step, start; 379-380 loss at step=iteration.
+# The final observation of a finished episode (for next_value) is restored from info["final_obs"] independent of the logger since
+# /repo commit 5ae04f4 (before, it was gated by `logger is not None and "episode" in info`: a run with logger=None learnt from
+# different next values - found by this module's twin comparison); the full twin comparison applies.
+PPO = _cfg(bracket="tick", vector=True, wrapper="same_step", prologue="reset_start", ending="ret_tick", return_src="wrapper", return_pos="any",
            stats={"return": "finished_len", "loss": "loop_index"}, epochs={}, units=[["policy", "loss", "", 1]], learn_pos="after_collect")
 
 # ---- multi-task schedulers (thorough tier): chained calls of a single-task learner with the same logger --------------------
@@ -173,9 +173,9 @@ ODDITIES = [
     ("mrq", "mrq.py:671-674, 710-711", "record_epoch without step"),
     ("td3_lap / pets", "td3_lap.py:309, pets.py:633", "'return' only when the environment supplies info['episode'] (never recorded on a plain environment)"),
     ("a2c", "a2c.py:88-91", "no start_new_episode before the first episode; start_new_episode as a tick per finished episode; needs a RecordEpisodeStatistics wrapper (undocumented)"),
-    ("ppo", "ppo.py:331-332, 95-112", "RecordEpisodeStatistics (gymnasium 1.3.0) skips the call after an episode end; in SAME_STEP mode that call is the first step of the next episode: 'return' and the step argument miss it"),
-    ("ppo", "ppo.py:95-104", "logger=None changes the learning data: the final observation of a finished episode replaces the auto-reset observation (for next_value) only inside `if logger is not None and 'episode' in info` (twin=env_only)"),
-    ("ppo", "ppo.py:374", "'loss' uses step=iteration while 'return' uses the environment-step count"),
+    ("ppo", "ppo.py:337-338, 101-118", "RecordEpisodeStatistics (gymnasium 1.3.0) skips the call after an episode end; in SAME_STEP mode that call is the first step of the next episode: 'return' and the step argument miss it"),
+    ("ppo", "ppo.py:95-104 before /repo 5ae04f4 (fixed there)", "logger=None used to change the learning data: the final observation of a finished episode replaced the auto-reset observation (for next_value) only inside `if logger is not None and 'episode' in info`; now independent of the logger, twin=full"),
+    ("ppo", "ppo.py:380", "'loss' uses step=iteration while 'return' uses the environment-step count"),
 ]
 
 
